@@ -3,7 +3,7 @@
  * (nunavut::support::bitspan / const_bitspan of the generated serialization.hpp) through a thin adapter.
  * Enumerates the bounded space itself and compares every call with a naive bit-at-a-time reference.
  *
- * usage: driver <phase> [<max_off> <max_len> <max_size>]   phases: copy getbits getint setint float16rt floatxx
+ * usage: driver <phase> [<max_off> <max_len> <max_size>]   phases: copy copyoverlap getbits getint setint float16rt floatxx
  *        driver f16pack <shard> <nshards>                   (all 2^32 singles, sharded)
  *        driver zeros|subspan                               (C++ only)
  * output: "CASES <n>", "NONTRIVIAL <n>", "FAIL <phase> <detail...>" (first 8 per phase+kind), exit 0 always unless
@@ -152,6 +152,43 @@ static void phase_copy(size_t max_off, size_t max_len)
                         FAIL("copy src_off=%zu dst_off=%zu len=%zu pat=%d got=%s want=%s", so, dof, len, pat, h1, h2);
                     }
                     free(src); free(dst); free(exp);
+                }
+}
+
+/* ------------------------------------------------------------------ copyBits, source and destination OVERLAPPING
+ * The documented contract defines overlap for byte-aligned offsets ("invokes memmove()"; undefined only when an offset
+ * is not byte-aligned).  Demanded here: whole-byte lengths only - for a trailing partial byte the documentation itself
+ * says the last byte is "adjusted separately" after the memmove, so nothing more than that is promised (such cases are
+ * executed for memory safety and counted, not compared).  Distinct pointers (the assert build demands src != dst),
+ * offsets 0 and 8 on either side; expected = the copy made through a temporary. */
+static void phase_copyoverlap(size_t max_byte, size_t max_len)
+{
+    char h1[600], h2[600];
+    const size_t size = max_byte + 1U + (max_len + 7U) / 8U + 1U;
+    for (size_t sb = 1; sb <= max_byte; sb++)
+        for (size_t db = 1; db <= max_byte; db++)
+            for (size_t len = 0; len <= max_len; len++)
+                for (int offk = 0; offk < 4; offk++) {
+                    if (sb == db) { continue; }
+                    const size_t so = (offk & 1) ? 8U : 0U, dof = (offk & 2) ? 8U : 0U;
+                    if (sb - so / 8U == db - dof / 8U) { continue; }  /* equal pointers: excluded by the assert build */
+                    uint8_t* buf = xalloc(size);
+                    uint8_t* exp = xalloc(size);
+                    uint8_t* tmp = xalloc(size);
+                    fill(buf, size, 2 + (int) (len & 1U));
+                    memcpy(exp, buf, size);
+                    memcpy(tmp, buf, size);
+                    for (size_t i = 0; i < len; i++) { wbit(exp, db * 8U + i, rbit(tmp, size, sb * 8U + i)); }
+                    A_copyBits(buf + db - dof / 8U, size - (db - dof / 8U), dof, len, buf + sb - so / 8U, size - (sb - so / 8U), so);
+                    g_cases++;
+                    const size_t nbytes = (len + 7U) / 8U;
+                    const int overlap = (sb < db) ? (sb + nbytes > db) : (db + nbytes > sb);
+                    if (len > 0 && overlap) { g_nontrivial++; }
+                    if ((len % 8U) == 0U && memcmp(buf, exp, size) != 0) {
+                        hex(buf, size, h1); hex(exp, size, h2);
+                        FAIL("copyoverlap src_byte=%zu dst_byte=%zu src_off=%zu dst_off=%zu len=%zu got=%s want=%s", sb, db, so, dof, len, h1, h2);
+                    }
+                    free(buf); free(exp); free(tmp);
                 }
 }
 
@@ -519,6 +556,7 @@ int main(int argc, char** argv)
     const size_t b = (argc > 3) ? (size_t) atol(argv[3]) : 80U;
     const size_t c = (argc > 4) ? (size_t) atol(argv[4]) : 12U;
     if (!strcmp(ph, "copy")) { phase_copy(a, b); }
+    else if (!strcmp(ph, "copyoverlap")) { phase_copyoverlap(a, b); }
     else if (!strcmp(ph, "getbits")) { phase_getbits(a, b, c); }
     else if (!strcmp(ph, "getint")) { phase_getint(a, b, c); }
     else if (!strcmp(ph, "setint")) { phase_setint(a, b, c); }
